@@ -138,13 +138,27 @@ def _stack_case(case):
                       sv=sv_got.shape, comp=comp.shape):
         return
     err = float(np.max(np.abs(sv_got - Sv[:k]) / Sv[:k]))
-    # open finding: above 500 voxels the solver is dask's one-pass randomised SVD (rank-20 sketch, no power
+    # open finding: above 500 voxels the solver is dask's one-pass randomised SVD (rank k+10 sketch, no power
     # iteration, unseeded): exact only for <= 20 images or numerically low-rank stacks
     inexact = randomized and flat and N > 20
     tag = "randflat" if inexact else ("rand" if randomized else "full")
     case.maxobs("max_sv_rel_err_" + tag, err)
+    # The open finding is recognised by its signature, not by a bound on its size (quick seed 11 met 10.4 % on 40
+    # masked 8^3 images after 10 % had looked generous): a one-pass sketch of rank k+10 without power iteration can
+    # only under-estimate, and by about as much as an independent numpy sketch of the same rank does on the same data
+    sv_known = False
+    if inexact and err > rt:
+        rs_ = np.random.default_rng(p["iseed"] % (2**32))
+        Xc_ = Xm - mean
+        est = []
+        for _ in range(12):
+            Qs, _r = np.linalg.qr(Xc_ @ rs_.normal(size=(D, min(k + 10, N, D))))
+            est.append(np.linalg.svd(Qs.T @ Xc_, compute_uv=False)[:k])
+        est_min = np.min(np.stack(est), axis=0)
+        sv_known = bool(np.all(sv_got <= Sv[:k] * (1 + 1e-3)) and np.all(sv_got >= 0.9 * est_min))
+        case.maxobs("max_sketch_floor_ratio", float(np.max(est_min / np.maximum(sv_got, 1e-30))))
     case.check(err <= rt, "singular values differ from the exact SVD",
-               "pca.randomized-solver-inexact" if (inexact and err <= 0.10) else None, got=sv_got, want=Sv[:k],
+               "pca.randomized-solver-inexact" if sv_known else None, got=sv_got, want=Sv[:k],
                chunks=ch, randomized=randomized, flat=flat, N=N, D=D)
     # a component is determined (up to sign) only if its singular value is separated from its neighbours
     gap = np.array([min(Sv[j - 1] / Sv[j] if j else np.inf, Sv[j] / Sv[j + 1]) for j in range(k)])
